@@ -191,6 +191,7 @@ class Runner(object):
         self.ctor = {}                                         # node -> partner list of its last (re)start, if not the default
         self.has_dump_conf = bool(spec.get("dump"))
         self.members = bool(conf.get("dynamicMembershipChange"))
+        self.commit_confs = {}                         # index -> candidate member sets in force when first reported committed
         self.prev_log = {}                             # node -> (generation, {index: term}) after the previous event
         self.held_at_restart = []                      # (node, index, term) of membership entries in a restarted node's journal
         self.mon = monitors.StepMonitors(self.sim)
@@ -778,26 +779,31 @@ class Runner(object):
             elif v in self.before:
                 b = self.before[v]
                 views[v] = (set((x[0], x[1]) for x in b["log"]), b["log"][0][0] if b["log"] else 1, b["covered"])
-        # the member set in force is the one of the LATEST membership entry in a log (appended, not yet committed ones
-        # included — that is how single-server changes work, and the code carries them out at append): a position is
-        # backed if it has a majority under the committed entries' member set or under that of some running node's log
+        # A commit is judged against the member set in force when the position was FIRST reported committed and never
+        # re-judged with later sets.  In force = the latest membership entry of a log (appended, not yet committed ones
+        # included: single-server changes, carried out at append).  The reporting node may be a follower that has
+        # not got the leader's latest entries, so the candidates are: the committed entries' set and the set of every
+        # node's log at that moment (dead nodes: the log they had when killed); a majority under ANY of them backs it.
         configs = [self._voters_by_log()]
         if self.members:
             MEM = bytes([sim.so._COMMAND_TYPE.MEMBERSHIP])
             for v in self.V:
-                if v not in sim.objs:
+                if v in sim.objs:
+                    ents = [(e[1], e[0]) for e in sim.P(v, "raftLog")[:]]
+                elif v in self.before:
+                    ents = [(x[0], x[2]) for x in self.before[v]["log"]]
+                else:
                     continue
                 M2 = list(configs[0])
-                changed = False
-                for (cmd, idx, term) in sim.P(v, "raftLog")[:]:
+                for (idx, cmd) in ents:
                     if idx in self.committed or not isinstance(cmd, bytes) or cmd[:1] != MEM:
                         continue
                     req = sim.so.pickle.loads(cmd[1:])
                     if req[0] == "add" and req[1] not in M2:
-                        M2.append(req[1]); changed = True
+                        M2.append(req[1])
                     elif req[0] == "rem" and req[1] in M2:
-                        M2.remove(req[1]); changed = True
-                if changed and M2 not in configs:
+                        M2.remove(req[1])
+                if M2 not in configs:
                     configs.append(M2)
         M = configs[0]
         todo = sorted(self.committed) if only is None else sorted(only)
@@ -805,9 +811,11 @@ class Runner(object):
         for idx in todo:
             term = self.committed[idx][0]
             holders = [v for v, (ents, first, la) in views.items() if (idx, term) in ents or (idx < first and idx <= la)]
-            if not any(2 * len([h for h in holders if h in C]) > len(C) for C in configs):
+            confs = self.commit_confs.setdefault(idx, configs)          # recorded at the first report
+            M = confs[0]
+            if not any(2 * len([h for h in holders if h in C]) > len(C) for C in confs):
                 self.flag("restart:committed-entry-not-majority-backed",
-                          "position %d (term %d) %s; only %s of the voters %s (member set defined by the log) store it"
+                          "position %d (term %d) %s; only %s of the voters %s (member set defined by the log when it was first reported committed) store it"
                           % (idx, term, ("was reported committed and node %s has been restarted since" % i) if only is None
                              else ("is reported committed by node %s" % i), holders, M))
                 break
@@ -1399,6 +1407,7 @@ def base_members(r):
         r.ev("notice", L, j)
         r.ev("notice", j, L)
     r.ev("member", L, "add", "y")             # appended by the cut-off leader only
+    mark_y = len(r.events)
     r.ev("tick", L, 0.0625)
     r.ev("compact", L)                        # its dump must not contain y (position = lastApplied)
     r.ev("tick", L, 0.0625)
@@ -1408,6 +1417,7 @@ def base_members(r):
         return {}
     r.ev("submit", N, "n0")
     r.rounds(3, among=F)
+    mark_back = len(r.events)
     for j in F:
         r.ev("connect", L, j)
     r.rounds(8)
@@ -1416,7 +1426,16 @@ def base_members(r):
     r.rounds(2)
     r.ev("submit", N, "m3")
     r.rounds(4)
-    return {"leader": N, "followers": [i for i in V if i != N], "old": L}
+    return {"leader": N, "followers": [i for i in V if i != N], "old": L, "mark_y": mark_y, "mark_back": mark_back}
+
+
+def base_members_drop(r):
+    """`members`, kills only while the cut-off old leader holds the uncommitted `add y` (victim sets containing it)"""
+    info = base_members(r)
+    if not info:
+        return {}
+    info.update(window_from=info["mark_y"], window_to=info["mark_back"], lag=info["old"])
+    return info
 
 
 def base_members_vote(r):
@@ -1498,7 +1517,8 @@ def base_members_minority(r):
 BASES = {"vote": base_vote, "replication": base_replication, "snapshot": base_snapshot, "conflict": base_conflict,
          "members": base_members, "minority": base_minority, "snapshot_late": base_snapshot_late,
          "snapshot_partial": base_snapshot_partial, "members_minority": base_members_minority,
-         "snapshot_stale_reset": base_snapshot_stale_reset, "members_vote": base_members_vote}
+         "snapshot_stale_reset": base_snapshot_stale_reset, "members_vote": base_members_vote,
+         "members_drop": base_members_drop}
 # (conflict: one batch per tick — with several pipelined batches and a conflicting LAST entry on the follower
 #  the real code alternates between two reset replies forever; a progress matter (C05), see notes/restart.md)
 BASE_CONF = {"vote": {}, "replication": {"appendEntriesBatchSizeBytes": 24},
@@ -1510,6 +1530,7 @@ BASE_CONF = {"vote": {}, "replication": {"appendEntriesBatchSizeBytes": 24},
              "members_minority": {"dynamicMembershipChange": True, "appendEntriesBatchSizeBytes": 64},
              "snapshot_stale_reset": {"logCompactionBatchSize": 64, "appendEntriesBatchSizeBytes": 2 ** 16},
              "members_vote": {"dynamicMembershipChange": True, "appendEntriesBatchSizeBytes": 2 ** 16},
+             "members_drop": {"dynamicMembershipChange": True, "appendEntriesBatchSizeBytes": 64},
              "snapshot_partial": {"logCompactionBatchSize": 16, "appendEntriesBatchSizeBytes": 2 ** 16}}
 
 
@@ -1749,6 +1770,8 @@ def _work(args):
             variants, base = directed_items(repo, name, spec, tmp, stride, offset, kinds, shard)
             if shard[0] == 0:
                 res.append(summarize(base, "%s/base" % name, spec))
+            # deterministic shuffle: when the deadline cuts the item, what is lost is spread over all kill positions
+            _random.Random("%d/%s/%d/order" % (base_seed, name, n)).shuffle(variants)
             for label, events in variants:
                 if time.time() > deadline:
                     res.append({"label": "deadline", "cov": {"deadline-cut": 1}, "violations": [], "n_events": 0, "hash": None})
@@ -1779,8 +1802,9 @@ def plan(ctx):
         quick = ctx.tier == "quick"
         kinds = ("between", "at-send", "repeat")
         K = 4 if quick else 12
+        items.append(("directed", "members_drop", 3, True, 5 if quick else 1, ctx.seed, ("between",), (0, 1)))
         for j in range(K):
-            items.append(("directed", "members", 3, True, 6 if quick else 1, ctx.seed, kinds, (j, K)))
+            items.append(("directed", "members", 3, True, 8 if quick else 1, ctx.seed, kinds, (j, K)))
         if not quick:
             for j in range(K):
                 items.append(("directed", "members", 3, False, 1, ctx.seed, kinds, (j, K)))
@@ -1885,6 +1909,7 @@ def run(ctx):
     t0 = time.time()
     items = plan(ctx)
     budget = ctx.scale({"C10": 5.0, "C04": 7.0}.get(ctx.pid, 17.0), 270.0)
+    budget *= max(1.0, ctx.budget_s / float(ctx.scale(25, 420)))      # ./check retries an inconclusive run with 3x the budget
     deadline = t0 + budget
     root = ctx.tmpdir()
     # long directed items first, random ones fill the remaining time
